@@ -113,7 +113,7 @@ func GenProgram(t *rapid.T) *Node {
 	// most programs start with a few declarations so that calls, constructors and methods have targets
 	for i, n := 0, g.n(0, 3, "nprelude"); i < n; i++ {
 		g.budget++
-		prog.C = append(prog.C, g.stmtOf(pick(g, []string{"funcdecl", "funcdecl", "ctor", "ctor", "method-obj", "accessor-obj", "args-fn", "valueof-obj", "scope-shift", "var-shadowed"}, "prelude"), true)...)
+		prog.C = append(prog.C, g.stmtOf(pick(g, []string{"funcdecl", "funcdecl", "ctor", "ctor", "method-obj", "accessor-obj", "args-fn", "valueof-obj", "scope-shift", "var-shadowed", "with-throw", "proto-getter"}, "prelude"), true)...)
 	}
 	prog.C = append(prog.C, g.stmts(g.n(2, 10, "ntop"), true)...)
 	// finish with an expression statement most of the time so that the completion value is interesting
@@ -159,7 +159,7 @@ func (g *G) stmt(declsAllowed bool) []*Node {
 		}
 	}
 	if declsAllowed && g.depth <= 3 {
-		choices = append(choices, "funcdecl", "funcdecl", "ctor", "method-obj", "accessor-obj", "args-fn", "valueof-obj", "scope-shift", "var-shadowed")
+		choices = append(choices, "funcdecl", "funcdecl", "ctor", "method-obj", "accessor-obj", "args-fn", "valueof-obj", "scope-shift", "var-shadowed", "with-throw", "proto-getter")
 	}
 	if g.sc.inFunc {
 		choices = append(choices, "return", "return")
@@ -211,20 +211,42 @@ func (g *G) stmtOf(c string, declsAllowed bool) []*Node {
 			inner := N("obj", NS("prop", "p", Num(1)), NS("prop", pick(g, []string{"q", "r", "a", "b"}, "fp1"), Num(2)))
 			obj = Call(Dot(Id("Object"), "create"), inner)
 		}
+		obj = g.viaScript(obj, "forinsrc")
+		flabel := ""
+		if g.coin(50, "forinlabel") {
+			flabel = g.fresh("L")
+		}
 		body := Block(ExprStmt(&Node{K: "postupd", S: "++", C: []*Node{Id(cnt)}}))
-		switch g.n(0, 5, "forinexit") { // order-insensitive exits: the count is the same whatever the enumeration order
+		switch g.n(0, 7, "forinexit") { // order-insensitive exits: the count is the same whatever the enumeration order
 		case 0:
-			body.C = append(body.C, NS("break", ""))
+			body.C = append(body.C, NS("break", flabel))
 		case 1:
-			body.C = append(body.C, NS("continue", ""), ExprStmt(Call(Id("log"), Str("unreachable"))))
+			body.C = append(body.C, NS("continue", flabel), ExprStmt(Call(Id("log"), Str("unreachable"))))
 		case 2:
 			if g.sc.inFunc {
 				body.C = append(body.C, N("return", Id(cnt)))
 			}
+		case 3, 4:
+			if flabel != "" {
+				// the labelled jump leaves (or continues) the for-in from inside a nested loop
+				j := g.fresh("j")
+				g.declare(j, kNum)
+				jump := "break"
+				if g.coin(50, "forinnestedcont") {
+					jump = "continue"
+				}
+				body.C = append(body.C, N("for", N("var", NS("decl", j, Num(0))), Bin("<", Id(j), Num(3)), &Node{K: "postupd", S: "++", C: []*Node{Id(j)}},
+					Block(N("if", Bin("===", Id(j), Num(1)), Block(NS(jump, flabel))), ExprStmt(Call(Id("log"), Str("inner"), Id(j))))),
+					ExprStmt(Call(Id("log"), Str("unreachable"))))
+			}
+		}
+		var loop *Node = NS("forin", "var", Id(key), obj, body)
+		if flabel != "" {
+			loop = NS("label", flabel, loop)
 		}
 		return []*Node{
 			N("var", NS("decl", cnt, Num(0))),
-			NS("forin", "var", Id(key), obj, body),
+			loop,
 			ExprStmt(Call(Id("log"), Str("forin"), Id(cnt))),
 		}
 	case "switch":
@@ -436,6 +458,66 @@ func (g *G) stmtOf(c string, declsAllowed bool) []*Node {
 			return []*Node{pre, NS("funcdecl", fn, N("params", Id("u")), body),
 				ExprStmt(Call(Id("log"), Str("eval-shift"), Call(Id(fn), NS("bool", "false")), Call(Id(fn), NS("bool", "true")), Call(Id(fn), NS("bool", "false"))))}
 		}
+	case "with-throw":
+		// an exception leaves a with body and is caught in the same activation: the with object must be off
+		// the scope chain afterwards (12.10 step 7 restores the lexical environment however the body ends)
+		name := pick(g, []string{"p", "q", "a"}, "wtname")
+		wo := g.fresh("wo")
+		g.declare(name, kAny)
+		g.declare(wo, kObj)
+		var mk *Node = N("obj", NS("prop", name, Str("from-with-object")))
+		if g.coin(30, "wtinherited") {
+			mk = Call(Dot(Id("Object"), "create"), mk)
+		}
+		var thrower *Node
+		switch g.n(0, 2, "wtthrow") {
+		case 0:
+			thrower = N("throw", g.literal(kVal))
+		case 1:
+			thrower = ExprStmt(Dot(N("null"), "x")) // TypeError raised by the interpreter
+		default:
+			thrower = ExprStmt(Call(&Node{K: "func", C: []*Node{N("params"), Block(N("throw", Str("from-callee")))}}))
+		}
+		after := []*Node{
+			ExprStmt(Call(Id("log"), Str("after-with-throw"), Id(name))),
+			ExprStmt(&Node{K: "assign", S: "=", C: []*Node{Id(name), Str("assigned-after")}}),
+			ExprStmt(Call(Id("log"), Str("with-object-untouched"), Dot(Id(wo), name), Id(name),
+				Call(&Node{K: "func", C: []*Node{N("params"), Block(N("return", Id(name)))}}))),
+		}
+		return append([]*Node{N("var", NS("decl", name, Str("outer"))), N("var", NS("decl", wo, mk)),
+			N("try", Block(N("with", Id(wo), Block(ExprStmt(Call(Id("log"), Str("in-with"), Id(name))), thrower))),
+				NS("catch", "e", Block(ExprStmt(Call(Id("log"), Str("caught-from-with"), Id(name))))), Empty())}, after...)
+	case "proto-getter":
+		// an accessor on a prototype observes the receiver, not the object that holds it (8.12.3 / 8.12.5)
+		proto, inst := g.fresh("pr"), g.fresh("in")
+		g.declare(proto, kObj)
+		g.declare(inst, kObj)
+		gbody := Block(ExprStmt(Call(Id("log"), Str("proto-get"), Dot(N("this"), "tag"))), N("return", Dot(N("this"), "tag")))
+		sbody := Block(ExprStmt(&Node{K: "assign", S: "=", C: []*Node{Dot(N("this"), "got"), Id("v")}}))
+		po := N("obj", NS("prop", "tag", Str("proto")), NS("getter", "g", gbody), NS("setter", "g", Id("v"), sbody))
+		out := []*Node{N("var", NS("decl", proto, po))}
+		if g.coin(50, "pgctor") {
+			c := g.fresh("C")
+			g.declare(c, kFn)
+			out = append(out, NS("funcdecl", c, N("params"), Block(ExprStmt(&Node{K: "assign", S: "=", C: []*Node{Dot(N("this"), "tag"), Str("instance")}}))),
+				ExprStmt(&Node{K: "assign", S: "=", C: []*Node{Dot(Id(c), "prototype"), Id(proto)}}),
+				N("var", NS("decl", inst, &Node{K: "new", C: []*Node{Id(c)}})))
+		} else {
+			var mk *Node = Call(Dot(Id("Object"), "create"), Id(proto))
+			if g.coin(40, "pgdeep") {
+				mk = Call(Dot(Id("Object"), "create"), mk)
+			}
+			out = append(out, N("var", NS("decl", inst, mk)),
+				ExprStmt(&Node{K: "assign", S: "=", C: []*Node{Dot(Id(inst), "tag"), Str("instance")}}))
+		}
+		out = append(out,
+			ExprStmt(Call(Id("log"), Str("inherited-get"), Dot(Id(inst), "g"), N("idx", Id(inst), Str("g")))),
+			ExprStmt(&Node{K: "assign", S: "=", C: []*Node{Dot(Id(inst), "g"), Str("stored")}}),
+			ExprStmt(Call(Id("log"), Str("inherited-set"), Dot(Id(inst), "got"), Dot(Id(proto), "got"), Call(Dot(Id(inst), "hasOwnProperty"), Str("g")))))
+		if !g.NoWith {
+			out = append(out, N("with", Id(inst), Block(ExprStmt(Call(Id("log"), Str("with-get"), Id("g"))))))
+		}
+		return out
 	case "var-shadowed":
 		// `var name = value` executed where a nearer scope already binds the name: the declaration is hoisted
 		// to the variable environment, the initialiser assigns through the lexical environment (12.2), so the
@@ -553,18 +635,34 @@ func (g *G) loop(form string) []*Node {
 	var loop *Node
 	switch form {
 	case "for":
-		loop = N("for", N("var", NS("decl", i, Num(0))), Bin("<", Id(i), Num(bound)), &Node{K: "postupd", S: "++", C: []*Node{Id(i)}}, body)
+		loop = N("for", N("var", NS("decl", i, g.viaScript(Num(0), "forinit"))), g.viaScript(Bin("<", Id(i), Num(bound)), "forcond"), &Node{K: "postupd", S: "++", C: []*Node{Id(i)}}, body)
 	case "while":
 		out = append(out, N("var", NS("decl", i, Num(0))))
-		loop = N("while", Bin("<", &Node{K: "postupd", S: "++", C: []*Node{Id(i)}}, Num(bound)), body)
+		loop = N("while", g.viaScript(Bin("<", &Node{K: "postupd", S: "++", C: []*Node{Id(i)}}, Num(bound)), "whilecond"), body)
 	default:
 		out = append(out, N("var", NS("decl", i, Num(0))))
-		loop = N("dowhile", body, Bin("<", &Node{K: "preupd", S: "++", C: []*Node{Id(i)}}, Num(bound)))
+		loop = N("dowhile", body, g.viaScript(Bin("<", &Node{K: "preupd", S: "++", C: []*Node{Id(i)}}, Num(bound)), "docond"))
 	}
 	if label != "" {
 		loop = NS("label", label, loop)
 	}
 	return append(out, loop)
+}
+
+// viaScript sometimes routes a loop-header expression through script code that runs blocks of its own
+// (an immediately invoked function, a getter): whatever the interpreter keeps per statement (pending
+// labels, completion values) must survive that.
+func (g *G) viaScript(e *Node, label string) *Node {
+	switch g.n(0, 7, label) {
+	case 0:
+		// (function(v){ L: { break L } return v })(e)
+		inner := g.fresh("L")
+		return Call(&Node{K: "func", C: []*Node{N("params", Id("v")), Block(NS("label", inner, Block(NS("break", inner))), N("return", Id("v")))}}, e)
+	case 1:
+		// ({get v(){ for(;;){ break } return e }}).v — e is evaluated inside the getter
+		return Dot(N("obj", NS("getter", "v", Block(N("for", Empty(), Empty(), Empty(), Block(NS("break", ""))), N("return", e)))), "v")
+	}
+	return e
 }
 
 func (g *G) switchStmt() *Node {
